@@ -130,6 +130,13 @@ pub async fn run(args: &ShardArgs, rep: &mut Report) {
 				("OUT:plain.txt", modify, true),
 			],
 		),
+		// a negated explicit pattern re-includes what a built-in default pattern (*.py[co]) would ignore: explicit
+		// patterns come after the defaults, so the file passes whether or not the defaults are switched off
+		(
+			"--ignore-negated",
+			vec!["--ignore".into(), "!keep.pyc".into(), "--ignore".into(), "exp_ign.x".into()],
+			vec![("keep.pyc", modify, true), ("sub/keep.pyc", modify, true), ("exp_ign.x", modify, false), ("plain.txt", modify, true)],
+		),
 		("--filter", vec!["--filter".into(), "f_*".into()], vec![("f_yes.txt", modify, true), ("plain.txt", modify, false)]),
 		(
 			"--filter-file",
